@@ -39,7 +39,7 @@ interface Node { id: ID }
 type Obj implements Node { id: ID x: Int y: Int! o: Obj l: [Obj] }
 type Other implements Node { id: ID z: Int }
 union U = Obj | Other
-type Query { a: Int b: Int c: Int! o: Obj n: Obj! l: [Obj] ln: [Obj!] i: Node u: [U] s(v: Int = 7): Int ev: Obj tick(step: Int = 1): Int nums: [Int] w: Int el: [Obj] }
+type Query { a: Int b: Int c: Int! o: Obj n: Obj! l: [Obj] ln: [Obj!] i: Node u: [U] s(v: Int = 7): Int ev: Obj tick(step: Int = 1): Int nums: [Int] w: Int el: [Obj] r(q: Int!): Int things: [Node] }
 type Mutation { m1: Obj m2: Obj m3: Int m4: [Obj] m5: Int! }
 type Subscription { ev: Obj tick(step: Int = 1): Int }
 """
@@ -59,7 +59,7 @@ OBJ1 = {"__typename__": "Obj", "id": "1", "x": 10, "y": 11, "o": OBJ2, "l": [OBJ
 OTHER = {"__typename__": "Other", "id": "9", "z": 90}
 ROOT = {
     "a": 1, "b": 2, "c": 3, "o": OBJ1, "n": OBJ1, "l": [OBJ1, OBJ2], "ln": [OBJ1, OBJ2],
-    "i": OBJ1, "u": [OBJ1, OTHER], "s": 5, "nums": [1, 2, 3], "w": 4, "el": [],
+    "i": OBJ1, "u": [OBJ1, OTHER], "s": 5, "nums": [1, 2, 3], "w": 4, "el": [], "r": 6,
     "m1": OBJ1, "m2": OBJ2, "m3": 3, "m4": [OBJ1, OBJ2], "m5": 5,
 }
 
@@ -68,6 +68,10 @@ import re as _re
 _ADDR = _re.compile(r"0x[0-9a-fA-F]+")
 
 CONFIGS = ("blocking-opt", "blocking-gen", "asyncio-thr", "asyncio-inl", "threadpool")
+
+
+class SubResolverError(ResolverError):
+    """user-defined subclass of the library's resolver error"""
 
 
 class World:
@@ -99,6 +103,8 @@ def _outcome(world, info, parent, args):
         raise ResolverError("E@" + p)
     if o == "err-ext":
         raise ResolverError("E@" + p, extensions={"code": 7})
+    if o == "err-sub":
+        raise SubResolverError("S@" + p)
     if o == "boom":
         raise RuntimeError("B@" + p)
     if o == "null":
@@ -274,6 +280,8 @@ def _instr(world, k, nested=False):
     ins = [RecInstr(world, "I%d" % i) for i in range(k)]
     if k == 1:
         return ins[0]
+    if nested == "middle" and k >= 4:
+        return MultiInstrumentation(ins[0], MultiInstrumentation(*ins[1:-1]), ins[-1])
     if nested and k >= 3:
         return MultiInstrumentation(ins[0], MultiInstrumentation(*ins[1:]))
     return MultiInstrumentation(*ins)
@@ -291,7 +299,7 @@ def observe(status, value, world, extra=None):
             obs["data"] = "unserialisable:%s" % (type(e).__name__,)
         errs = []
         for e in getattr(res, "errors", []) or []:
-            errs.append([str(getattr(e, "message", e)), pstr(getattr(e, "path", None) or [])])
+            errs.append([str(getattr(e, "message", e)), pstr(getattr(e, "path", None) or []), type(e).__name__])
         obs["errors"] = sorted(errs)
     elif status == "exc":
         obs["exc"] = _ADDR.sub("0x", "%s:%s" % (type(value).__name__, value))
